@@ -218,3 +218,8 @@ def extra(rep, impl_exe, model_exe, rng, tier):
     # returned barcodes must remain what they were when other symbols are encoded afterwards
     import held
     return held.held_phase(rep, impl_exe, rng, ['c39 0 0', 'c39 1 1', 'c93 0 0', 'c93 1 0', 'c93 1 1'], n=10 if tier == "quick" else 80)
+
+
+def public_line(line):
+    t = line.split(" ")
+    return "encfull " + line if t[0] in ("c39", "c93") and len(t) == 4 else None
